@@ -18,3 +18,4 @@ INVARIANT XWalkIsBestMatch
 INVARIANT XNoLeak
 INVARIANT RejectIsNoOp
 INVARIANT TreeIsRef
+INVARIANT XSplitSound
